@@ -73,12 +73,15 @@ def run_case(case, mods, idx=0, threads=None):
             elab, en = es
             ii, jj = np.nonzero(listed)
             v = data[listed]
-            sl = np.full(len(v), POISON, np.int32)
-            mv = np.full(len(v), -123.0, np.float32)
-            imv = np.full(len(v), POISON, np.int32)
-            n2 = cImageD11.sparse_localmaxlabel(v, ii.astype(np.uint16), jj.astype(np.uint16), mv, imv, sl)
-            if n2 != en or sl.tolist() != elab:
-                probs.append("sparse_localmaxlabel(cut=%s): %s n=%d, definition %s n=%d" % (cut, sl.tolist(), n2, elab, en))
+            # work buffers arrive with any previous content (SparseScan.lmlabel re-uses them from frame to frame)
+            for fill in (-123.0, 3.0e38):
+                sl = np.full(len(v), POISON, np.int32)
+                mv = np.full(len(v), fill, np.float32)
+                imv = np.full(len(v), POISON, np.int32)
+                n2 = cImageD11.sparse_localmaxlabel(v, ii.astype(np.uint16), jj.astype(np.uint16), mv, imv, sl)
+                if n2 != en or sl.tolist() != elab:
+                    probs.append("sparse_localmaxlabel(cut=%s, work buffers pre-filled with %g): %s n=%d, definition %s n=%d" % (
+                        cut, fill, sl.tolist(), n2, elab, en))
             fr = sparseframe.sparse_frame(ii.astype(np.uint16), jj.astype(np.uint16), (ns, nf), pixels={"intensity": v})
             n3 = sparseframe.sparse_localmax(fr)
             if n3 != en or fr.pixels["localmax"].tolist() != elab:
